@@ -6,6 +6,7 @@ package sx
 
 import (
 	"fmt"
+	"go/types"
 	"go/token"
 	"unsafe"
 
@@ -58,6 +59,70 @@ func (m *monitor) onStore(fr *frame, addr *value, instr *ssa.Store) {
 	if d, ok := m.cells[addr]; ok {
 		m.note(fr, "store to pre-existing cell "+d, instr.Pos())
 	}
+}
+
+// onStoreV: as onStore, but a store of the value the cell already holds is
+// labelled "same-value": still a write (and a race if unordered), but not a
+// modification an observer of the datum could see.
+func (m *monitor) onStoreV(fr *frame, addr *value, instr *ssa.Store, v value) {
+	if d, ok := m.cells[addr]; ok {
+		if sameValue(*addr, v, 0) {
+			m.note(fr, "same-value store to pre-existing cell "+d, instr.Pos())
+			return
+		}
+		m.note(fr, "store to pre-existing cell "+d, instr.Pos())
+	}
+}
+
+// sameValue: structural identity of two executor values (concrete scalars
+// equal, symbolic scalars the same term, interfaces of the same dynamic type
+// with same content, pointers/maps/slices the same object). Conservative: false when unsure.
+func sameValue(a, b value, depth int) bool {
+	if depth > 8 {
+		return false
+	}
+	switch x := a.(type) {
+	case nil:
+		return b == nil
+	case bool, int, int8, int16, int32, int64, uint, uint8, uint16, uint32, uint64, uintptr, float32, float64, string, complex64, complex128:
+		return a == b
+	case *Sym:
+		y, ok := b.(*Sym)
+		return ok && x.T == y.T
+	case iface:
+		y, ok := b.(iface)
+		if !ok || (x.t == nil) != (y.t == nil) {
+			return false
+		}
+		if x.t == nil {
+			return true
+		}
+		return types.Identical(x.t, y.t) && sameValue(x.v, y.v, depth+1)
+	case *value:
+		y, ok := b.(*value)
+		return ok && x == y
+	case *smap:
+		y, ok := b.(*smap)
+		return ok && x == y
+	case []value:
+		y, ok := b.([]value)
+		if !ok || len(x) != len(y) || cap(x) != cap(y) {
+			return false
+		}
+		return len(x) == 0 && cap(x) == 0 || cap(x) > 0 && &x[:1][0] == &y[:1][0]
+	case structure:
+		y, ok := b.(structure)
+		if !ok || len(x) != len(y) {
+			return false
+		}
+		for k := range x {
+			if !sameValue(x[k], y[k], depth+1) {
+				return false
+			}
+		}
+		return true
+	}
+	return false
 }
 
 func (m *monitor) onMapWrite(fr *frame, mp *smap, instr ssa.Instruction) {
